@@ -667,12 +667,33 @@ let c16_mode = function
     end
   | _ -> "FAIL malformed case"
 
+(* C30: pos_to_offset *)
+let c30_p2o = function
+  | [t; line; col; res] ->
+    let t' = ns_of_sx t in
+    let l = nat_of_int (int_of_sx line) and c = nat_of_int (int_of_sx col) in
+    let model = PosOffset.pos_to_offset t' l c in
+    (match res with
+     | A "panic" -> "FAIL key=pos_to_offset-panic pos_to_offset panicked"
+     | L [A "ok"; o] ->
+       let o' = n_of_int (int_of_sx o) in
+       let len = int_of_n (PosOffset.bytes t') in
+       if int_of_sx o > len then Printf.sprintf "FAIL key=offset-beyond-text offset %d is beyond the text length %d" (int_of_sx o) len
+       else if not (PosOffset.is_boundary_b t' o') then Printf.sprintf "FAIL key=offset-not-on-char-boundary offset %d is inside a multi-byte character" (int_of_sx o)
+       else
+         let nlines = Stdlib.List.length (Stdlib.List.filter (fun x -> int_of_n x = 10) t') in
+         let nt = int_of_sx line > nlines || Stdlib.List.exists (fun x -> int_of_n x > 127) t' in
+         Printf.sprintf "OK %d %s" (if nt then 1 else 0) (if model = Some o' then "model-exact" else "differs-from-model")
+     | _ -> "FAIL malformed result")
+  | _ -> "FAIL malformed case"
+
 let dispatch (sx : Sexp.t) : string =
   match sx with
   | L (A "lev" :: args) -> c31 args
   | L (A "eval" :: args) -> c08 args
   | L (A "aug" :: args) -> c12 args
   | L (A "wf" :: args) -> c11 args
+  | L (A "p2o" :: args) -> c30_p2o args
   | L (A "mode" :: args) -> c16_mode args
   | L [A "modes"; _; A "rejected"] -> "OK 0 grammar-rejected"
   | L [A "modes"; _; A "panic"] -> "FAIL key=panic reading the grammar panicked"
